@@ -31,7 +31,11 @@ stdout << "a fairly long string constant so that the object file has some text i
 '''}
 # output kind -> (flag, file the flag produces for source x.as)
 KINDS = {'ai': ('-Fai', 'x.ai'), 'ap': ('-Fap', 'x.ap'), 'asy': ('-Fasy', 'x.asy'), 'ao': ('-Fao', 'x.ao'), 'fm': ('-Ffm', 'x.fm'),
-         'lsp': ('-Flsp', 'x.lsp'), 'c': ('-Fc', 'x.c'), 'java': ('-Fjava', 'aldorcode/x.java'), 'main': ('-Fmain', 'x-aldormain.c')}
+         'lsp': ('-Flsp', 'x.lsp'), 'c': ('-Fc', 'x.c'), 'java': ('-Fjava', 'aldorcode/x.java'), 'main': ('-Fmain', 'x-aldormain.c'),
+         # C output split into several files (-Csmax): the header and a numbered part are outputs of their own
+         # (added after seeded change C18-header-close-unchecked: the .h was the one close site left unchecked)
+         'split-h': ('-Fc', 'x.h'), 'split-part': ('-Fc', 'x001.c')}
+NOTARGET = ('java', 'main', 'split-h', 'split-part')      # the =target form does not name the file that is written
 DIAG = re.compile(rb'\((Fatal )?Error\)|Program fault|could not|cannot|Could not|No space|File size limit', re.I)
 
 def main():
@@ -48,6 +52,7 @@ def main():
         f, _ = KINDS[kind]
         fl = [f if target is None else '%s=%s' % (f, target)]
         if kind == 'main': fl = ['-Fc'] + fl
+        if kind.startswith('split'): fl = fl + ['-Csmax=5']
         return fl + ['-Mno-warnings', 'x.as']
     for pn, text in progs:
         for kind in KINDS:
@@ -55,6 +60,7 @@ def main():
             out = KINDS[kind][1]
             p = run(['strace', '-f', '-P', os.path.join(d, out), '-e', 'trace=write,close', '-o', os.path.join(d, 'st.log'), b.aldor] + b.flags('aldor') + flags(kind), cwd=d, timeout=120)
             path = os.path.join(d, out)
+            if kind.startswith('split') and p.rc == 0 and not os.path.exists(path): continue      # this program is not split at -Csmax=5
             if p.rc != 0 or not os.path.exists(path):
                 ctx.violation('reference-run-failed:%s' % kind, 'fault-free run for %s/%s: %s, output %s\n%s' % (pn, kind, p.cause, 'present' if os.path.exists(path) else 'MISSING', p.out[-500:].decode(errors='replace')), files={'x.as': text})
                 continue
@@ -62,7 +68,7 @@ def main():
             log = open(os.path.join(d, 'st.log')).read()
             nwrite = len(re.findall(r'\bwrite\(', log)); nclose = len(re.findall(r'\bclose\(', log))
             refs[(pn, kind)] = (data, nwrite, nclose)
-            if kind not in ('java', 'main'):     # for these two the =target form does not name the file that is written
+            if kind not in NOTARGET:
                 jobs.append((pn, kind, 'devfull', 0)); jobs.append((pn, kind, 'isdir', 0)); jobs.append((pn, kind, 'nodir', 0))
             for k in range(1, nwrite + 1): jobs.append((pn, kind, 'write', k))
             for k in range(1, nclose + 1): jobs.append((pn, kind, 'close', k))
@@ -71,7 +77,7 @@ def main():
     # subsets of outputs with one failing member
     for pn, text in progs:
         for _ in range(ctx.q(6, 40)):
-            ks = rng.sample(sorted(k for k in KINDS if k not in ('main', 'java')), rng.randint(2, 5))
+            ks = rng.sample(sorted(k for k in KINDS if k not in NOTARGET), rng.randint(2, 5))
             jobs.append((pn, '+'.join(ks), 'subset-devfull', rng.randrange(len(ks))))
     ctx.log('%d reference runs, %d injected runs' % (len(refs), len(jobs)))
     def work(job):
